@@ -305,6 +305,12 @@ class Interp:
                 return c, c.class_attrs[name]
         return None, None
 
+    def find_nested(self, cls, name):
+        for c in cls.mro():
+            if name in getattr(c, "nested", {}):
+                return c.nested[name]
+        return None
+
     def isinstance_(self, o, cls):
         from .tlib import Tensor
 
@@ -938,6 +944,12 @@ class Interp:
             c, a = self.find_class_attr(o.cls, name)
             if a is not None:
                 return self.eval(a, Env(module=c.module))
+            nc = self.find_nested(o.cls, name)
+            if nc is not None:
+                return nc
+            for c in o.cls.mro():
+                if isinstance(c, NativeClass) and name in c.props:
+                    return c.props[name](self, o)
             for c in o.cls.mro():
                 if isinstance(c, NativeClass) and "__getattr__" in c.native_methods:
                     return c.native_methods["__getattr__"](self, o, name)
@@ -961,6 +973,9 @@ class Interp:
             c, a = self.find_class_attr(o, name)
             if a is not None:
                 return self.eval(a, Env(module=c.module))
+            nc = self.find_nested(o, name)
+            if nc is not None:
+                return nc
             c, m = self.find_prop(o, name)
             if m is not None:
                 return ("property", c, m)
